@@ -562,7 +562,17 @@ Error:
             continue;
         }
         struct video_s* video = self->video + i;
+        // Wind down whatever this stream already started. A source worker
+        // tells its filter and sink workers to stop when it exits; a stream
+        // whose camera refused to start has no source worker, so nobody
+        // else ever would and stop/abort/shutdown would wait forever.
+        video->source.is_stopping = 1;
         camera_stop(video->source.camera);
+        thread_join(&video->source.thread);
+        video->filter.is_stopping = 1;
+        thread_join(&video->filter.thread);
+        video->sink.is_stopping = 1;
+        thread_join(&video->sink.thread);
     }
     self->state = DeviceState_AwaitingConfiguration;
     return AcquireStatus_Error;
